@@ -67,6 +67,19 @@ impl<'a, K: Key, V> VacantEntry<'a, K, V> {
     pub fn insert(self, value: V) ensures self.filled() == Some(value) { unimplemented!() }
 }
 
+impl<'a, K: Key, V> Entry<'a, K, V> {
+    /// `or_insert`, read-only: the real function returns `&mut V`; code that writes through the
+    /// result does not type-check against this shim (and is then undecided, never accepted)
+    #[verifier::external_body]
+    pub fn or_insert(self, default: V) -> (r: &'a V)
+        ensures
+            match self {
+                Entry::Occupied(o) => *r == o.value(),
+                Entry::Vacant(v) => *r == default && v.filled() == Some(default),
+            },
+    { unimplemented!() }
+}
+
 impl<K: Key, V> HashMap<K, V> {
     pub uninterp spec fn view(&self) -> Map<K::G, V>;
 
